@@ -39,9 +39,14 @@ def run(ctx):
         s = StepShape(m, f, obj)
         q = s.q
         tag = owner + "::step"
-        if s.T is None or s.loop_next is None:
+        if not s.has_batch() or s.loop_next is None:
             ctx.lost("shuffle", "%s: taken batch / processing loop not recognised" % tag)
             continue
+        # "every instruction is equally likely at every position": the batch that is shuffled and processed is everything that was
+        # queued - taken whole, once, nothing split off, filtered or put back (C08's queue rules)
+        from . import c08
+        from .c06 import _Prefixed
+        c08.queue_rules(_Prefixed(ctx, "whole-"), m, owner, s)
         sh = [c for c in q.calls("shuffle")]
         ok = len(sh) == 1 and sh[0].term.j.get("callee_dp") == "rand::seq::SliceRandom::shuffle" and sh[0].term.j.get("callee_crate") == "rand" \
             and sh[0].resolved.startswith("<[T] as ") and (sh[0].term.j.get("resolved_dp") or "").startswith("rand::seq::")
@@ -51,7 +56,7 @@ def run(ctx):
             continue
         c = sh[0]
         recv = c.args[0]
-        whole = recv == ("local", s.T)
+        whole = s.is_batch(recv)
         raw = c.raw[0]
         sliced = any(x[0] == "call" and x[4] in ("index", "index_mut", "get_mut", "split_at_mut", "first_mut", "last_mut", "chunks_mut", "get") for x in walk(raw)) or \
             any(x[0] in ("index", "cindex") for x in walk(raw))
@@ -60,23 +65,26 @@ def run(ctx):
         ctx.check(rng is not None and rng[0] == "param" and rng[2] == "rng", "shuffle", tag + "|generator", c.loc(), "the shuffle draws from the step's generator parameter",
                   "the shuffle draws from %s" % (render(rng) if rng else "?"))
         from .stepmodel import benign_batch_guard
-        real = [a for a in c.guards if not benign_batch_guard(a, s.T, for_shuffle=True)]
+        real = [a for a in c.guards if not benign_batch_guard(a, s, for_shuffle=True)]
         # with a benign emptiness guard the shuffle need not dominate the loop head, but every path that enters the loop body
         # with a non-empty batch passes it: the loop is under the same guard or the shuffle dominates the loop
         dom = q.body.dominates(c.b, s.head) or (len(c.guards) > 0 and not real and all(
-            any(benign_batch_guard(a, s.T, for_shuffle=False) for a in x.guards) or q.body.dominates(c.b, x.b) for x in [s.loop_next]))
+            any(benign_batch_guard(a, s, for_shuffle=False) for a in x.guards) or q.body.dominates(c.b, x.b) for x in [s.loop_next]))
         ctx.check(not real and not q.cfg.in_loop(c.b) and dom, "shuffle", tag + "|unconditional", c.loc(),
                   "the shuffle runs whenever there is something to shuffle (conditions: %s) and precedes the processing loop" % (c.gtext() or "none"),
                   "the shuffle is conditional on [%s] or does not dominate the loop" % c.gtext())
-        ctx.check(q.cfg.strictly_after(s.take.b, c.b), "shuffle", tag + "|after-take", c.loc(), "the shuffle happens after the batch is taken")
+        if s.in_place:
+            ctx.check(q.body.dominates(c.b, s.take.b) and c.b != s.take.b, "shuffle", tag + "|after-take", c.loc(), "the queue is shuffled in place before the loop drains it")
+        else:
+            ctx.check(q.cfg.strictly_after(s.take.b, c.b), "shuffle", tag + "|after-take", c.loc(), "the shuffle happens after the batch is taken")
         # nothing reorders/drops between the shuffle and the end of the loop
         region = q.cfg.reach_from(c.b) if True else set()
         bad = []
         for x in q.calls():
             if x.b == c.b or x.b not in region:
                 continue
-            touches = any(a == ("local", s.T) or (a[0] != "const" and any(y == ("local", s.T) for y in walk(a))) for a in x.args)
-            if touches and x.name in REORDER:
+            touches = any(s.mentions_batch(a) for a in x.args)
+            if touches and x.name in REORDER and not (s.in_place and x is s.take):
                 bad.append(x)
         ctx.check(not bad, "shuffle", tag + "|no-reorder", ctx.loc(f), "no call after the shuffle can reorder or drop batch elements",
                   "after the shuffle the batch is passed to %s" % ", ".join(x.name for x in bad))
